@@ -17,6 +17,16 @@ def run():
     rd = vlib.model_check("DequeImplMC", "DequeImpl_dev.cfg", expect_ok=False, timeout=900)
     chk.add_model("DequeImpl/variant pop_ignores_other_push (must violate)", rd, note="violated: %s" % rd["violated"])
     if chk.thorough():
+        # unbounded argument for the index queue: inductive invariant checked by Apalache for arbitrary
+        # integer range bounds (base case, induction step, invariant implies the property)
+        steps = [("Init", "IndInv", 0), ("IndInit", "IndInv", 1), ("IndInit", "ExactlyOnce", 0)]
+        res = [vlib.apalache_check("IndexQueueInd", i, v, n, cinit="ConstInit") for i, v, n in steps]
+        if all(r["ok"] for r in res):
+            chk.models.append(dict(spec="IndexQueueInd (Apalache): Init => IndInv, IndInv /\\ Next => IndInv', "
+                                        "IndInv => ExactlyOnce for arbitrary First <= Last", result="proved"))
+        else:
+            chk.drift.append("Apalache could not re-establish the inductive invariant of IndexQueueInd (rc %s)"
+                             % [r["rc"] for r in res])
         chk.add_model("DequeImpl/3 threads on both ends", vlib.model_check("DequeImplMC", "DequeImpl_3.cfg", timeout=3000))
     (binary,) = vlib.build_harness(["queue_harness"])
     nruns = 64 if chk.thorough() else 16
